@@ -154,3 +154,17 @@ claim("C19", category="model_checking", engine="arraymc",
            "oracle), never decoy bytes under the original's identity.",
       note="inode-keeping moves are trusted by design; hash size 16",
       design="3 C19")
+
+claim("C20", category="model_checking", engine="arraymc",
+      technique="enumeration of recorded states x trees on the real CLI, every report compared with an independent decode and byte-level ground truth",
+      text="Trees with duplicate groups of size 4 / 3 / 2 within and across disks, near-duplicates (one byte different at either end, equal prefix "
+           "different length), empty files, sym/hard links, and 15 names made of spaces, newlines, CR, tabs, colons, backslashes, escape look-alikes, "
+           "quotes, glob characters and non-UTF-8 bytes; recorded states synced / partially synced / bad marks / hash migration scheduled and half "
+           "done; with and without a share prefix (x2 configurations in thorough). list: tag lines parse into exactly the recorded files and links "
+           "(sizes, times, targets) after inverting the escape, with the right field count; dup: connected components of the reported pairs equal "
+           "the content-equality classes of non-empty fully synced files and the pair count is sum(n-1) (soundness only during a migration); "
+           "status -G: per-stripe used / unsynced / bad / rehash / time lines and the has_unsynced / has_unscrubbed / has_rehash / has_bad counters "
+           "equal the decode; pool: exactly one link per recorded file and link with the right target, stale links and empty directories removed, "
+           "foreign files kept.",
+      note="unambiguity judged on the tagged log; human readable stdout not judged",
+      design="3 C20")
